@@ -193,6 +193,37 @@ def field_edits(orig):
     return out
 
 
+def hoist_kid(orig):
+    '''The same security operation written the other way the COSE context allows: the key identifier
+    is taken out of the unprotected header of the layer that names the key (the message itself for a
+    direct key, the recipient for a wrapped key) and given once for the whole block in the
+    additional-unprotected-headers parameter (id 4, an encoded header map as the implementation's own parser reads
+    it).  Unprotected headers are not authenticated.'''
+    out = dict(primary={k: v for (k, v) in orig['primary'].items() if k not in ('span', 'crc', 'crc_ok')},
+               blocks=[{k: v for (k, v) in b.items() if k not in ('span', 'crc', 'crc_ok')} for b in orig['blocks']])
+    done = 0
+    for blk in out['blocks']:
+        if blk['type'] != B.T_BCB:
+            continue
+        asb = B.dec_asb(blk['data'])
+        kid = None
+        for results in asb['results']:
+            for (i, (rid, rval)) in enumerate(results):
+                msg = C.loads(rval)
+                layers = [msg] if len(msg) == 3 else list(msg[3])
+                for layer in layers:
+                    if isinstance(layer[1], dict) and 4 in layer[1]:
+                        kid = layer[1].pop(4)
+                        done += 1
+                results[i] = (rid, C.dumps(msg))
+        if kid is not None:
+            asb['params'] = [p for p in asb['params'] if p[0] != 4] + [(4, C.dumps({4: kid}))]
+            asb['params'].sort(key=lambda p: p[0])
+            asb['flags'] |= 1
+            blk['data'] = B.enc_asb(asb)
+    return B.encode(out) if done else None
+
+
 def contains_window(haystack, needle, window=8):
     if len(needle) < window:
         return False
@@ -265,6 +296,16 @@ def run_case(params, known):
                 ext = [bytes.fromhex(b[2]) for b in delivered[0]['blocks'] if b[0] == 195]
                 if ext != [ext_plain]:
                     viol('recovered-plaintext-differs', dict(target='extension'), repr(ext), data, 'none')
+    # (2b) the same operation with the key identifier given in the additional unprotected headers
+    hoisted = hoist_kid(orig)
+    if hoisted is not None:
+        (world, delivered, reasons) = receive(hoisted, right, True)
+        counts['baseline'] = counts.get('baseline', 0) + 1
+        keys.add('%s:kid-in-additional-headers' % name)
+        got = [bytes.fromhex(b[2]) for d in delivered for b in d['blocks'] if b[0] == 1]
+        if got != [plain]:
+            viol('receiver-with-key-does-not-recover-plaintext', dict(form='kid-in-additional-headers'),
+                 'delivered payloads %r, reasons %r errors %r' % (got, reasons, world.api_errors[:1]), hoisted, 'kid hoisted into parameter 4')
     for keymode in (('wrong-kw' if kind == 'enc-kw' else 'wrong'), 'none'):
         (world, delivered, reasons) = receive(data, keymode, True)
         counts['wrong-key'] = counts.get('wrong-key', 0) + 1
